@@ -11,6 +11,7 @@ Tie to the code, all against the build of /repo's working tree:
 """
 import hashlib
 import itertools
+import json
 import os
 import re
 import shutil
@@ -55,6 +56,25 @@ def spec_bd_value(K, tt, ss, idle):
     if ss == 0:
         return unknown
     return ss
+
+
+# ------------------------------------------------------------------ harness calls that survive a crash
+
+def impl_batch(exe, lines, timeout=1200, budget=None):
+    """common.batch, but a harness that dies (signal) on some line answers "crash" for exactly that line:
+    the failing input is found by bisection so that it can be reported as a concrete case."""
+    if budget is None:
+        budget = [40]
+    try:
+        return common.batch(exe, lines, timeout=timeout)
+    except RuntimeError:
+        if len(lines) == 1:
+            budget[0] -= 1
+            return ["crash"]
+        if budget[0] <= 0:
+            return ["crash?"] * len(lines)
+        mid = len(lines) // 2
+        return impl_batch(exe, lines[:mid], timeout, budget) + impl_batch(exe, lines[mid:], timeout, budget)
 
 
 # ------------------------------------------------------------------ (a1) sort_replace
@@ -112,7 +132,7 @@ def gen_replace_cases(rng, nrandom):
 def check_replace(chk, hx, oracle, corr_broken):
     cases = gen_replace_cases(chk.rng, chk.budget(4000, 60000))
     lines = ["R %d %d %d %s" % (old, new, len(arr), " ".join(map(str, arr))) for (arr, old, new, _) in cases]
-    impl = common.batch(hx, lines, timeout=900)
+    impl = impl_batch(hx, lines, timeout=900)
     modl = common.batch(oracle, lines, timeout=900) if oracle else [None] * len(lines)
     nojump = common.batch(oracle, ["J" + l[1:] for l in lines], timeout=900) if oracle else [None] * len(lines)
     for (arr, old, new, cls), ln, i, m, j in zip(cases, lines, impl, modl, nojump):
@@ -190,7 +210,7 @@ def script_text(segs):
 def check_module(chk, hx, oracle, corr_broken):
     scripts = gen_module_scripts(chk.rng, chk.budget(600, 8000), chk.tier)
     lines = ["M %d %s" % (n, script_text(segs)) for (n, segs, _) in scripts]
-    impl = common.batch(hx, lines, timeout=1200)
+    impl = impl_batch(hx, lines, timeout=1200)
     modl = common.batch(oracle, lines, timeout=1200) if oracle else [None] * len(lines)
     srows = []
     for (n, segs, cls), ln, i, m in zip(scripts, lines, impl, modl):
@@ -203,7 +223,7 @@ def check_module(chk, hx, oracle, corr_broken):
         prev = ["N"] * n
         parts = i.split(" | ")
         bad = None
-        if len(parts) != len(segs) or "error" in i or "?" in i:
+        if len(parts) != len(segs) or "error" in i or "?" in i or "crash" in i:
             bad = "harness reported %r" % i[:200]
         else:
             for seg, part in zip(segs, parts):
@@ -308,7 +328,7 @@ def check_wiring(chk, name, hx, oracle, K, corr_broken):
     scripts = gen_wiring_scripts(chk.rng.fork(name), K, chk.budget(400, 4000), chk.tier)
     ks = "%d %d %d" % K
     lines = ["W %s %s" % (ks, wscript_text(segs)) for (segs, _) in scripts]
-    impl = common.batch(hx, lines, timeout=1200)
+    impl = impl_batch(hx, lines, timeout=1200)
     modl = common.batch(oracle, lines, timeout=1200) if oracle else [None] * len(lines)
     verd = common.batch(oracle, ["O" + l[1:] for l in lines], timeout=1200) if oracle else [None] * len(lines)
     for (segs, cls), ln, i, m, vd in zip(scripts, lines, impl, modl, verd):
@@ -318,8 +338,8 @@ def check_wiring(chk, name, hx, oracle, K, corr_broken):
             corr_broken.append(("W-" + name, ln[:300], i[:300], m[:300]))
         # spec on the implementation: while every batch so far is admissible (model's batch_ok),
         # the sort module must hold bd_value of the CPU's channels
-        if vd is None or "error" in i:
-            if "error" in i:
+        if vd is None or "error" in i or "crash" in i:
+            if "error" in i or "crash" in i:
                 chk.violation("wiring-error:%s:%s" % (name, hashlib.md5(ln.encode()).hexdigest()[:12]),
                               "breakdown wiring (%s) failed on %s: %s" % (name, ln, i), {"line": ln, "impl": i})
             continue
@@ -744,15 +764,24 @@ def check_e2e(chk, build, m, oracle, ncases):
         bare = (k % 4 == 3)
         ncpu, threads, desc, nbare = gen_trace(r, m, bare)
         cases.append({"k": k, "bare": bare, "ncpu": ncpu, "threads": threads, "desc": desc, "nbare": nbare})
-    # corpus first: the Coq witness OHx ; VTx ; VTp (C20_wiring_refuted) and its mirror image with OHp/OHr/VTr
-    c = m.c
-    w_evs = [(10, "OHx", i32(0, 1000) + struct.pack("<Q", 0), None), (20, c + "Yc", b"", u32(10) + b"type10\0"),
-             (30, c + "Tc", u32(1, 10), None), (40, m.pairs[0][0], b"", None), (50, c + "Tx", m.task_payload(1), None),
-             (60, c + "Tp", m.task_payload(1), None), (70, "OHp", b"", None), (80, "OHr", b"", None),
-             (90, c + "Tr", m.task_payload(1), None), (100, c + "Te", m.task_payload(1), None),
-             (110, m.pairs[0][1], b"", None), (120, "OHe", b"", None)]
-    cases.insert(0, {"k": "witness", "bare": True, "ncpu": 2, "threads": {1000: w_evs},
-                     "desc": ["%d 1000 %s" % (e[0], e[1]) for e in w_evs], "nbare": 2})
+    # corpus first (corpus/C20/*.json): the Coq witness OHx ; VTx ; VTp (C20_wiring_refuted) with its mirror
+    # image OHp ; OHr ; VTr, for each model, and a clean two-CPU case
+    cdir = os.path.join(common.VERIF, "corpus", "C20")
+    corpus = []
+    for f in sorted(os.listdir(cdir)) if os.path.isdir(cdir) else []:
+        if not f.endswith(".json"):
+            continue
+        cj = json.load(open(os.path.join(cdir, f)))
+        if cj.get("model") != m.name:
+            continue
+        threads = {int(tid): [(e[0], e[1], bytes.fromhex(e[2]), bytes.fromhex(e[3]) if e[3] is not None else None) for e in evs]
+                   for tid, evs in cj["threads"].items()}
+        desc = sorted("%d %d %s" % (e[0], tid, e[1]) for tid, evs in threads.items() for e in evs)
+        desc.sort(key=lambda x: int(x.split()[0]))
+        corpus.append({"k": "corpus-" + cj["name"], "bare": cj.get("bare", False), "ncpu": cj["ncpu"], "threads": threads,
+                       "desc": desc, "nbare": cj.get("nbare", 0)})
+    chk.count("e2e-%s:corpus-cases" % m.name, len(corpus))
+    cases = corpus + cases
     try:
         def run_case(cs):
             d = os.path.join(wd, "%s-%s" % (m.name, cs["k"]))
@@ -800,8 +829,9 @@ def check_e2e(chk, build, m, oracle, ncases):
                       "%s breakdown rows at time %s are %s but the per-CPU values are %s (%s)" % (
                           m.name, detail.get("time"), detail.get("rows"), detail.get("percpu"), verdict), replay)
     if cases:
-        chk.sample({"op": "ovniemu -b (%s)" % m.name, "events": cases[1]["desc"][:12] if len(cases) > 1 else cases[0]["desc"],
-                    "verdict": results[1][2][0] if len(cases) > 1 and results[1][2] else None})
+        j = min(len(cases) - 1, len(corpus))
+        chk.sample({"op": "ovniemu -b (%s)" % m.name, "events": cases[j]["desc"][:12],
+                    "verdict": results[j][2][0] if results[j][2] else "rejected"})
 
 
 # ------------------------------------------------------------------ driver
